@@ -13,7 +13,7 @@ import values
 
 LEAN_MODULE = "Kio.Props.C05"
 THEOREMS = ["Kio.C05.lossless", "Kio.C05.decoded_is_wire", "Kio.C05.idempotent_canonical",
-            "Kio.C05.shipped_lossy_witness"]
+            "Kio.C05.shipped_lossy_witness", "Kio.C05.reencodable", "Kio.C05.shipped_reencodable_conditions"]
 
 NONFINITE = [0x7FF0000000000000, 0xFFF0000000000000, 0x7FF8000000000000, 0x7FF0000000000001,
              0xFFF8000000000123, 0x7FF4000000000000, 1 << 63]
@@ -97,7 +97,7 @@ def run(ctx):
         if f["what"] in seen:
             continue
         seen.add(f["what"])
-        ctx.violation(f"{f['class']}: {f['what']}", dict(kind="c05", **f))
+        ctx.violation(f"{f['class']}: {f['what']}", {**f, "check": "c05"})
     if disagreements and not fails:
         ctx.broken.append(f"correspondence dec on canonical encodings: {len(disagreements)}; first: {disagreements[0]}")
 
